@@ -430,3 +430,52 @@ Proof. unfold connect_next; caR. Qed.
 #[export] Hint Resolve CA_fire_timed CA_connect_next : cadb.
 Lemma CA_conn_established : forall n s0 s, CA s0 s -> CA s0 (fst (conn_established n s)).
 Proof. unfold conn_established; caR. Qed.
+
+(* ------------------------------------------------------------------ the statement of Properties_C20.v *)
+Lemma compression_switch :
+  (* one inbound stanza switches the layer on only if it is <compressed/> in the compression namespace while
+     compression is allowed; the parser restart (new stream) is then pending *)
+  (forall n e s, comp_active (fst (dispatch n e s)) = comp_active s \/
+     (e_name e = NmCompressed /\ e_ns e = NsCompress /\ f_comp_allowed s = true /\
+      reset_parser (fst (dispatch n e s)) = true)) /\
+  (* among the stanza handlers only _handle_compress_result touches the switch ... *)
+  (forall k n e s, k <> HCompressResult -> comp_active (fst (fst (call_handler k n e s))) = comp_active s) /\
+  (* ... on <compressed/> only, when compression is allowed and zlib was offered; it then prepares the parser
+     reset, installs the layer and queues the new stream header, in this order *)
+  (forall n e s,
+     (e_name e <> NmCompressed -> fst (fst (call_handler HCompressResult n e s)) = s) /\
+     (e_name e = NmCompressed ->
+        exists s2, fst (fst (call_handler HCompressResult n e s)) = conn_open_stream s2 /\
+                   reset_parser s2 = true /\ oh s2 = OpenSasl /\ sendq s2 = sendq s /\
+                   comp_active s2 = (if f_comp_allowed s && comp_supported s then true else comp_active s))) /\
+  (* that handler is registered by _handle_features_compress, together with the <compress/> request, exactly when
+     zlib is (or was) offered and compression allowed *)
+  (forall n e s,
+     (comp_supported s = true \/ (f_comp_allowed s = true /\ e_zlib e = true) ->
+        exists s1, fst (fst (call_handler HFeaturesCompress n e s)) = h_add HCompressResult (send_raw_m WCompress false false s1) /\
+                   sendq s1 = sendq s /\ st s1 = st s) /\
+     (comp_supported s = false -> (f_comp_allowed s = false \/ e_zlib e = false) ->
+        exists s1, fst (fst (call_handler HFeaturesCompress n e s)) = fst (features_sasl n e s1) /\ handlers s1 = handlers s)) /\
+  (* nothing else that runs in an iteration touches the switch *)
+  (forall k n e s, comp_active (fst (call_id_handler k n e s)) = comp_active s) /\
+  (forall n s, comp_active (fst (open_handler n s)) = comp_active s) /\
+  (forall n a b s, comp_active (fst (stream_start n a b s)) = comp_active s) /\
+  (forall s, comp_active (fst (stream_end s)) = comp_active s) /\
+  (forall n s, comp_active (fst (fire_timed n s)) = comp_active s) /\
+  (forall n s, comp_active (fst (conn_established n s)) = comp_active s) /\
+  (forall n s, comp_active (fst (fst (connect_next n s))) = comp_active s) /\
+  (forall s, comp_active (fst (conn_disconnect s)) = comp_active s).
+Proof.
+  split; [intros; apply dispatch_turned_on|].
+  split; [intros k n e s Hk; apply (CA_call_handler_other k n e s s Hk (CA_refl s))|].
+  split; [intros; apply compress_result_spec|].
+  split; [intros; apply features_compress_spec|].
+  split; [intros k n e s; apply (CA_call_id_handler k n e s s (CA_refl s))|].
+  split; [intros n s; apply (CA_open_handler n s s (CA_refl s))|].
+  split; [intros n a b s; apply (CA_stream_start n a b s s (CA_refl s))|].
+  split; [intros s; apply (CA_stream_end s s (CA_refl s))|].
+  split; [intros n s; apply (CA_fire_timed n s s (CA_refl s))|].
+  split; [intros n s; apply (CA_conn_established n s s (CA_refl s))|].
+  split; [intros n s; apply (CA_connect_next n s s (CA_refl s))|].
+  intros s; apply (CA_conn_disconnect s s (CA_refl s)).
+Qed.
